@@ -174,7 +174,7 @@ pub fn run(s: &mut Src, ctx: &mut Ctx) -> Verdict {
         }
     }
     let reps = if ctx.thorough { 60 } else { 12 };
-    let par_engine = ParallelRuleEngine::new(ParallelConfig { enabled: c.parallel, max_threads: c.max_threads, min_rules_per_thread: c.min_rules, dependency_analysis: false });
+    let par_engine = ParallelRuleEngine::new(ParallelConfig { enabled: c.parallel, max_threads: c.max_threads, min_rules_per_thread: c.min_rules, dependency_analysis: c.max_threads % 2 == 0 });
     for rep in 0..reps {
         let par = match catch(|| par_engine.execute_parallel(&kb, &facts, false)) {
             Ok(Ok(r)) => r,
@@ -465,7 +465,7 @@ pub fn run_writers(s: &mut Src, ctx: &mut Ctx) -> Verdict {
     }
     let seq_flags: Vec<bool> = (0..NFLAGS).map(|k| facts.get(&flag_path(k)).is_some()).collect();
     let reps = if ctx.thorough { 40 } else { 10 };
-    let mut par_engine = ParallelRuleEngine::new(ParallelConfig { enabled: c.parallel, max_threads: c.max_threads, min_rules_per_thread: c.min_rules, dependency_analysis: false });
+    let mut par_engine = ParallelRuleEngine::new(ParallelConfig { enabled: c.parallel, max_threads: c.max_threads, min_rules_per_thread: c.min_rules, dependency_analysis: c.max_threads % 2 == 0 });
     register_marks(&mut par_engine);
     for rep in 0..reps {
         let facts = c.store.to_facts();
